@@ -1,4 +1,5 @@
-from tools import vlib
+import os, re
+from tools import vlib, cli
 
 RULE = ("generated pairs / chains (length 2-4) of libraries over the shared key space {a,b,c,*}^(<=2) with every field kind "
         "incl. removed, with/without lua_versions, plus the shipped chains lua51->lua52->lua53, lua51->luau->roblox_base "
@@ -10,10 +11,103 @@ def body(ctx):
     n = 300 if ctx.tier == "quick" else 6000
     outdir, meta = ctx.harness("c15", n)
     ctx.correspond(outdir, nontrivial_tag=lambda t: any(x in t for x in ("shared-key", "removed", "versions-both")))
+    cli_resolver(ctx)
     if ctx.tier == "thorough":
         for k in range(1, 4):
             outdir, meta = ctx.harness("c15", n, seed=ctx.seed + k, name=f"c15-{k}")
             ctx.correspond(outdir, nontrivial_tag=lambda t: any(x in t for x in ("shared-key", "removed", "versions-both")))
+
+
+def parse_std(text):
+    """top level of a standard-library YAML as selene writes it: (base, {key: removed?}) — only what the documented
+    rule `nearest definition along the base chain decides; removed = absent` needs"""
+    base = None
+    keys = {}
+    m = re.search(r"^base: *(\S+)", text, re.M)
+    if m:
+        base = m.group(1).strip("\"'")
+    in_globals = False
+    cur = None
+    for line in text.splitlines():
+        if re.match(r"^globals:", line):
+            in_globals = True; continue
+        if in_globals and re.match(r"^\S", line):
+            in_globals = False
+        if not in_globals:
+            continue
+        m = re.match(r"^  ([^ #][^:]*|\"[^\"]*\"):\s*$", line)
+        if m:
+            cur = m.group(1).strip("\"'")
+            keys[cur] = False
+        elif cur is not None and re.match(r"^    removed: *true", line):
+            keys[cur] = True
+    return base, keys
+
+
+def cli_resolver(ctx):
+    """the command-line tool's own resolver (selene/src/standard_library.rs): built-in names, std files with a `base`,
+    a file chain — every key of every layer is probed by a one-line read and must be diagnosed iff the documented rule
+    (nearest definition along the chain decides; `removed` means absent) says it is absent"""
+    stddir = os.path.join(vlib.REPO, "selene-lib", "default_std")
+    raw = {}
+    for n in ("lua51", "lua52", "lua53", "luau"):
+        raw[n] = parse_std(open(os.path.join(stddir, n + ".yml"), encoding="utf-8").read())
+    d = os.path.join(ctx.workdir, "cli")
+    os.makedirs(d, exist_ok=True)
+    files = {
+        "derived": "---\nbase: lua52\nglobals:\n  print:\n    removed: true\n  newglobal:\n    any: true\n  getfenv:\n    any: true\n  math.floor:\n    removed: true\n",
+        "chain2": "---\nbase: derived\nglobals:\n  print:\n    any: true\n  newglobal:\n    removed: true\n  tostring:\n    removed: true\n",
+    }
+    for n in ("lua52", "lua53", "luau"):
+        files["copy_" + n] = open(os.path.join(stddir, n + ".yml"), encoding="utf-8").read()
+    for name, text in files.items():
+        with open(os.path.join(d, name + ".yml"), "w", encoding="utf-8") as fh:
+            fh.write(text)
+        raw[name] = parse_std(text)
+
+    def chain(n):
+        out = []
+        while n is not None:
+            out.append(n)
+            n = raw[n][0]
+        return out
+
+    probes = sorted({k for n in raw for k in raw[n][1] if re.match(r"^[A-Za-z_][A-Za-z0-9_]*(\.[A-Za-z_][A-Za-z0-9_]*)*$", k)})
+    with open(os.path.join(d, "probe.lua"), "w") as fh:
+        for i, k in enumerate(probes):
+            fh.write(f"local _p{i} = {k}\n")
+    for std in ("lua51", "lua52", "lua53", "luau", "copy_lua52", "copy_lua53", "copy_luau", "derived", "chain2"):
+        cli.write_config(d, std=std, lints={"unused_variable": "allow", "deprecated": "allow", "shadowing": "allow"}, name=f"cfg_{std}.toml")
+        rc, out, err = cli.run_selene(["--config", f"cfg_{std}.toml", "--display-style", "json2", "probe.lua"], d)
+        diags, summary, bad = cli.parse_json_lines(out)
+        flagged = set()
+        for x in diags:
+            if x.get("code") in ("undefined_variable", "incorrect_standard_library_use"):
+                flagged.add(x["primary_label"]["span"]["start_line"])
+        ctx.evaluations += 1
+        layers = chain(std)
+        # the effective key set: for every key some layer mentions, the nearest layer decides
+        effective = set()
+        for n in layers:
+            for key in raw[n][1]:
+                verdicts = [raw[m][1][key] for m in layers if key in raw[m][1]]
+                if not verdicts[0]:
+                    effective.add(key)
+        wrong = []
+        for i, k in enumerate(probes):
+            # a path is there when it is an effective key or a prefix of one (implicit read-only table); paths below a
+            # wildcard / `any` / struct entry are not probed (none of the probed keys has such an ancestor in these libraries)
+            if not any(k in raw[n][1] for n in layers):
+                continue
+            absent = not (k in effective or any(e.startswith(k + ".") for e in effective))
+            if absent != (i in flagged):
+                wrong.append((k, "absent" if absent else "present", "diagnosed" if i in flagged else "accepted"))
+        ctx.nontrivial.add(("cli-std", std))
+        if wrong or (not diags and err.strip()):
+            ctx.violation("implementation violates the specification: with std = %r the command-line tool's library disagrees with "
+                          "`nearest definition along the base chain decides, removed means absent`: %s" % (std, wrong[:6] or err[:300]),
+                          f"directory: {d}\nconfig: cfg_{std}.toml (chain {' -> '.join(layers)})\nprobe.lua reads one key per line\nmismatches (key, documented, observed): {wrong[:20]}\nstderr: {err[:500]}")
+    ctx.stats["cli_std_probes"] = len(probes)
 
 
 def check(ctx):
@@ -24,4 +118,5 @@ def check(ctx):
     return vlib.standard_check(
         ctx, ["Selene.Props.C15"], body,
         trusted=vlib.BASE_TRUST + ["serde_yaml parsing of default_std/*.yml (used by the harness to obtain the raw, un-merged libraries)"],
-        rule=RULE)
+        rule=RULE + "; the command-line resolver: built-in names, file copies of the built-ins (base resolved by the CLI), a derived file and a two-file chain, every key of every layer probed",
+        need_selene=True)
